@@ -186,3 +186,89 @@ func caRR(args []string) string {
 	}
 	return "mon=ok"
 }
+
+// ca ra <seed>: a target is removed and, while its whole-target delete is being handed to the change feed (a
+// slow feed consumer: the client callback, on seeing the delete, starts a goroutine that re-adds the target and
+// writes a leaf into it, and gives it a short time to finish), registered again.  The cache's lock makes
+// "the target disappears" and "its delete is announced" one step with respect to Add: whatever is written into
+// the re-added target is announced AFTER the delete of the old incarnation, so a subscriber to "*" that replays
+// the feed ends with exactly what the cache holds.  Found necessary by seeded change c04_seed10 (Remove
+// releasing the lock before it notifies).  Observation: the monitor's verdict only.
+func caRA(args []string) string {
+	if len(args) != 2 {
+		return "bad-op"
+	}
+	seed, _ := strconv.ParseInt(args[1], 10, 64)
+	r := rand.New(rand.NewSource(seed))
+	savedNow := scriptedNow
+	defer func() { scriptedNow = savedNow }()
+	scriptedNow = int64(1000 * time.Second)
+	c := cache.New([]string{"A", "B"})
+	var (
+		mu      sync.Mutex
+		feed    []*pb.Notification
+		armed   int32
+		fired   int32
+		readded = make(chan struct{})
+	)
+	leaf := []string{[]string{"a", "b"}[r.Intn(2)], "x"}
+	c.SetClient(func(l *ctree.Leaf) {
+		n, ok := l.Value().(*pb.Notification)
+		if !ok {
+			return
+		}
+		n = proto.Clone(n).(*pb.Notification)
+		if atomic.LoadInt32(&armed) == 1 && caRRIsTargetDelete(n, "A") && atomic.CompareAndSwapInt32(&fired, 0, 1) {
+			go func() {
+				defer close(readded)
+				c.Add("A")
+				c.GnmiUpdate(caRRUpdate("A", leaf, 50, "new"))
+			}()
+			select {
+			case <-readded:
+			case <-time.After(scaled(150 * time.Millisecond)): // the re-add is (correctly) excluded until Remove is done
+			}
+		}
+		mu.Lock()
+		feed = append(feed, n)
+		mu.Unlock()
+	})
+	for i, tgt := range []string{"A", "B"} {
+		if err := c.GnmiUpdate(caRRUpdate(tgt, leaf, int64(10+i), "old")); err != nil {
+			return "mon=setup-update-rejected"
+		}
+		if err := c.GnmiUpdate(caRRUpdate(tgt, []string{"c", "y"}, int64(20+i), "old")); err != nil {
+			return "mon=setup-update-rejected"
+		}
+	}
+	atomic.StoreInt32(&armed, 1)
+	c.Remove("A")
+	select {
+	case <-readded:
+	case <-time.After(scaled(20 * time.Second)):
+		return "mon=readd-did-not-return"
+	}
+	mu.Lock()
+	defer mu.Unlock()
+	view := caRRView{}
+	for _, n := range feed {
+		view.apply(n)
+	}
+	for _, tgt := range []string{"A", "B"} {
+		var stored []string
+		c.Query(tgt, []string{"*"}, func(_ []string, _ *ctree.Leaf, v interface{}) error {
+			n := v.(*pb.Notification)
+			p := append(path.ToStrings(n.GetPrefix(), true), path.ToStrings(n.GetUpdate()[0].GetPath(), false)...)
+			stored = append(stored, strings.Join(p, "/"))
+			return nil
+		})
+		sort.Strings(stored)
+		if strings.Join(view.of(tgt), " ") != strings.Join(stored, " ") {
+			return "mon=replayed-view-differs-from-cache target=" + tgt
+		}
+	}
+	if len(view.of("A")) != 1 {
+		return "mon=readded-target-holds-" + strconv.Itoa(len(view.of("A"))) + "-leaves"
+	}
+	return "mon=ok"
+}
